@@ -4,7 +4,7 @@ Model of src/crypto/Shamir.cpp (C10), core Lean only.
 Bytes are `Nat` (< 256 by invariant); every numeric literal of the source comes from
 `Generated/C10.lean`.  The control flow mirrors the C++:
 
-  build_exp_table / build_log_table   -> `expTable` / `logTable`
+  build_exp_table / build_log_table   -> `expPacked` / `logPacked`, `expTable` / `logTable`
   gf_add / gf_mul / gf_div            -> `gfAdd` / `gfMul` / `gfDiv` (throw = `invalidArgument`)
   evaluate_polynomial                 -> `evalPoly` (running power, not Horner, as in the source)
   interpolate                         -> `interpolateByte` / `interpolate` (skip of zero-valued shares included)
@@ -33,37 +33,63 @@ structure Share where
   value : List Nat
 deriving Repr, DecidableEq, Inhabited
 
-/-! ### Tables -/
+/-! ### Tables
+
+`build_exp_table` / `build_log_table` write into zero-initialised `std::array`s.  While a table is
+under construction it is held here as one natural number (entry `i` in bits `8i … 8i+7`) and every
+loop iteration forces its result (`force`): all intermediate values are then numerals, which keeps
+evaluation by the Lean kernel (`decide +kernel` in `Lemmas/C10Tables.lean`) linear instead of
+re-walking a tower of unevaluated updates.  The finished tables are ordinary arrays. -/
+
+/-- evaluate `t` before continuing (semantically `k t`) -/
+@[inline] def force {α : Type} (t : Nat) (k : Nat → α) : α :=
+  match t with
+  | 0 => k 0
+  | n + 1 => k (n + 1)
+
+/-- entry `i` of a packed byte table -/
+def tget (t i : Nat) : Nat := (t >>> (8 * i)) % 256
+
+/-- `table[i] = static_cast<uint8_t>(v)` on a packed table of `size` entries (no write outside the array) -/
+def tset (size t i v : Nat) : Nat :=
+  if i < size then t - tget t i * 2 ^ (8 * i) + (v % 256) * 2 ^ (8 * i) else t
 
 /-- `x <<= 1; if (x & 0x100) x ^= kFieldPolynomial;` on a `uint16_t`. -/
 def expStep (x : Nat) : Nat :=
   let y := (x <<< 1) % 65536
   if y &&& kReduceBit ≠ 0 then (y ^^^ kFieldPolynomial) % 65536 else y
 
-/-- the values `x & 0xFF` written by the first loop of `build_exp_table`, starting from `x`. -/
-def expSeq : Nat → Nat → List Nat
-  | 0, _ => []
-  | n + 1, x => (x &&& 0xFF) :: expSeq n (expStep x)
+/-- first loop of `build_exp_table`: `count` iterations from index `i` with generator state `x`:
+    `exp[i] = x & 0xFF; x = expStep x`. -/
+def expFill (size : Nat) : Nat → Nat → Nat → Nat → Nat
+  | 0, _, _, t => t
+  | count + 1, i, x, t =>
+    force (tset size t i (x &&& 0xFF)) fun t' =>
+    force (expStep x) fun x' => expFill size count (i + 1) x' t'
 
-/-- second loop of `build_exp_table`: `exp[i] = exp[i - 255]` for `i = start, start+1, …` (`count` iterations). -/
-def expWrap (a : Array Nat) : Nat → Nat → Array Nat
-  | _, 0 => a
-  | i, count + 1 => expWrap (a.setIfInBounds i (a.getD (i - kExpWrap) 0)) (i + 1) count
+/-- second loop: `exp[i] = exp[i - 255]`, `count` iterations from index `i`. -/
+def expWrap (size : Nat) : Nat → Nat → Nat → Nat
+  | 0, _, t => t
+  | count + 1, i, t =>
+    force (tset size t i (tget t (i - kExpWrap))) fun t' => expWrap size count (i + 1) t'
 
-def fillFrom (a : Array Nat) : Nat → List Nat → Array Nat
-  | _, [] => a
-  | i, v :: vs => fillFrom (a.setIfInBounds i v) (i + 1) vs
+def expPacked : Nat :=
+  expWrap kExpTableSize (kExpTableSize - kExpWrapStart) kExpWrapStart (expFill kExpTableSize kExpFill 0 1 0)
 
-def expTable : Array Nat :=
-  let a := fillFrom (Array.replicate kExpTableSize 0) 0 (expSeq kExpFill 1)
-  expWrap a kExpWrapStart (kExpTableSize - kExpWrapStart)
+/-- `for i < 255: log[exp[i]] = i` (`log[0] = 0` is the zero initialisation) -/
+def logFill (size expT : Nat) : Nat → Nat → Nat → Nat
+  | 0, _, t => t
+  | count + 1, i, t => force (tset size t (tget expT i) i) fun t' => logFill size expT count (i + 1) t'
 
-/-- `for i < 255: log[exp[i]] = i` -/
-def logFill (exp : Array Nat) (a : Array Nat) : Nat → Nat → Array Nat
-  | _, 0 => a
-  | i, count + 1 => logFill exp (a.setIfInBounds (exp.getD i 0) i) (i + 1) count
+def logPacked : Nat := force expPacked fun e => logFill kLogTableSize e kLogFill 0 0
 
-def logTable : Array Nat := logFill expTable (Array.replicate kLogTableSize 0) 0 kLogFill
+def unpack (t size : Nat) : List Nat := (List.range size).map (tget t)
+
+def expList : List Nat := unpack expPacked kExpTableSize
+def logList : List Nat := unpack logPacked kLogTableSize
+
+def expTable : Array Nat := expList.toArray
+def logTable : Array Nat := logList.toArray
 
 @[inline] def expAt (i : Nat) : Nat := expTable.getD i 0
 @[inline] def logAt (a : Nat) : Nat := logTable.getD a 0
